@@ -204,7 +204,11 @@ def singleline_string_literal(string: str) -> str:
 
 def multiline_string_literal(string: str) -> str:
     string = str(string)[3:-3]
-    all_lines = string.splitlines()
+    # Only line feeds (and the line ends of Windows files) separate lines. str.splitlines() would also split at form feeds,
+    # U+2028 and other characters that are part of the text.
+    all_lines = string.replace("\r\n", "\n").split("\n")
+    if all_lines[-1] == "":
+        all_lines.pop()
     lines: list[str] = []
     last_line = ""
 
